@@ -34,6 +34,7 @@ Section Oracle.
   Local Notation num := (num O).
 
   (* ---- approx_equal_numbers(lhs, rhs, relative_tolerance=None, absolute_tolerance=None) -------------
+       if lhs in (inf, -inf) or rhs in (inf, -inf): return lhs == rhs      (an infinite number equals only itself)
        if relative_tolerance is None: relative_tolerance = APPROX_RELATIVE_TOLERANCE          (dflt)
        if absolute_tolerance is None: absolute_tolerance = abs(lhs * relative_tolerance)
        return lhs == approx(rhs, rel=relative_tolerance, abs=absolute_tolerance)
@@ -45,6 +46,7 @@ Section Oracle.
          abs < 0 -> ValueError;  isnan(abs) -> ValueError;
          rt = rel * abs(expected);  rt < 0 -> ValueError;  isnan(rt) -> ValueError;  max(rt, abs)        *)
   Definition approx_numbers (dflt : num) (l r : num) (rel abs : option num) : result bool :=
+    if n_isinf O l || n_isinf O r then Ok (n_eqb O l r) else
     let rel := match rel with Some x => x | None => dflt end in
     let abs := match abs with Some a => a | None => n_abs O (n_mul O l rel) end in
     if n_eqb O l r then Ok true
